@@ -492,7 +492,19 @@ def corpus(rng):
     c = Circ(3, [(0, bs(1, a1, [a2, z, z, z])), (1, bs(1, a2, [z, z, z, a3])),
                  (0, gen.Leaf("PS", 1, [[QI(a3.cos, a3.sin)]], (a3.value,))), (0, bs(2, a3, [z] * 4))], True)
     p = Circ(3, [(0, gen.Leaf("PERM", 3, gen.perm_exact([2, 0, 1]), ([2, 0, 1],))), (0, bs(1, a1, [z] * 4))], True)
-    return [c, p]
+    # a full-width block directly followed by a single-mode component (the circuit object is then shared by every engine:
+    # computing its unitary must not modify the components), for both kinds of full-width leaves
+    r = rng.fork("corpus-fullwidth")
+    extra = []
+    for m in (2, 3):
+        u = gen.Leaf("U", m, gen.rand_unitary_exact(r, m), ())
+        extra.append(Circ(m, [(0, u), (r.below(m), gen.Leaf("PS", 1, [[QI(a1.cos, a1.sin)]], (a1.value,))),
+                              (0, bs(0, a2, [z] * 4))], False))
+        pv = [1, 0] if m == 2 else [1, 2, 0]
+        extra.append(Circ(m, [(0, gen.Leaf("PERM", m, gen.perm_exact(pv), (pv,))),
+                              (r.below(m), gen.Leaf("PS", 1, [[QI(a3.cos, a3.sin)]], (a3.value,))),
+                              (0, bs(1, a1, [a2, z, z, z]))], True))
+    return [c, p] + extra
 
 
 def replay(ctx, case):
